@@ -31,7 +31,10 @@ ASSUMPTIONS = [
 @st.composite
 def strategy_(draw, tier):
     fullrank_reg = draw(st.integers(0, 9)) < 3
-    d = draw(pc.xy(tier, need_fullrank=fullrank_reg))
+    # a tenth of the quick cases use the larger shapes too: the truncated / automatic solver policy only differs from the
+    # full decomposition when the matrix is larger than k + 10
+    big = tier == "thorough" or draw(st.integers(0, 9)) == 0
+    d = draw(pc.xy("thorough" if big else "quick", need_fullrank=fullrank_reg))
     X, Y = d["X"], d["Y"]
     if draw(st.integers(0, 9)) < 3:
         # only X has to be centred: targets with a non-zero mean are legal (the regressors carry no intercept)
